@@ -25,11 +25,11 @@ CHECKS = {
    text="Every history up to the depth bound over 24/33 symbols (two adversary connections, a legitimate controller, the application) is replayed on a fresh real system; after every event refusal, non-disclosure, absence of EVENTs, values, callback counters and stored pairings are compared with the reference model.",
    note="Adversary knowledge = what it derives from its own exchanges; histories longer than the bound and more than two adversary connections are not explored."),
  "C02": dict(cat="model_checking", engine="seqx+world+refctl", ref="§2 C02",
-   technique="exhaustive history exploration (depth 3/4) over the pair-setup message alphabet with real SRP over TCP; stored pairings compared with the reference model after every event",
+   technique="exhaustive history exploration (depth 3/4) over the pair-setup message alphabet with real SRP over TCP; stored pairings compared with the reference model after every event; plus stateless exploration of the interleavings of the real pairing handlers of two connections under a cooperative scheduler with iterative preemption bounding (scheduling points: every log statement of the library, mutex Locks, request arrivals)",
    text="Every history of the bound's length over 19/24 pair-setup symbols on a legitimate and an adversary connection; after every event the pairing store must equal the model (L's key iff a complete genuine exchange happened on L's connection).",
    note="Message constructors are the menu in DESIGN §2 C02; arbitrary byte strings are C13's business."),
  "C03": dict(cat="model_checking", engine="seqx+world+refctl", ref="§2 C03",
-   technique="exhaustive history exploration (depth 3/4, every node replayed) over the pair-verify alphabet, with destructive end-of-history probes of each connection's verified/encrypted status",
+   technique="exhaustive history exploration (depth 3/4, every node replayed) over the pair-verify alphabet, with destructive end-of-history probes of each connection's verified/encrypted status; plus stateless exploration of the interleavings of the real pair-verify / pair-setup handlers of two connections under a cooperative scheduler with iterative preemption bounding",
    text="Every history up to the depth bound over 16/22 pair-verify symbols on an adversary and a legitimate connection; every tree node is replayed on a fresh system and ends with probes (plaintext still answered and refused; ciphertext under own exchange keys not served; verified connection serves).",
    note="Whether a start is accepted is observed, only the verified status is predicted."),
  "C04": dict(cat="exploration", engine="world+refctl", ref="§2 C04",
@@ -115,7 +115,7 @@ def main():
         "setup_cmd": "./run.sh setup",
         "hooks": {
             "guard": "verif",
-            "enable": "go build -tags verif (checks build /repo through a replace directive; C08 additionally uses a generated -overlay that routes package hap's sync import through a scheduler shim)",
+            "enable": "go build -tags verif (checks build /repo through a replace directive; C02, C03 and C08 additionally use a generated -overlay that routes the sync import of packages hap and crypto through a scheduler shim and adds a file to hc's log package that turns log statements into scheduling points; /repo is not touched by it)",
             "baseline_off_cmd": "cd /repo && GOFLAGS=-mod=mod go test -vet=off -count=1 ./...",
             "source_commits": ["87bc922", "251c496"],
             "add_only": True,
@@ -123,6 +123,7 @@ def main():
         "engines": [
             {"name": "refctl", "path": "internal/refctl", "kind_free_text": "independent HAP controller (TLV8, SRP-6a, HKDF, session framing, HTTP/EVENT reader) — the reference model for wire behaviour", "serves_properties": ["C01","C02","C03","C04","C05","C06","C07","C08","C09","C10","C11","C13","C16","C20"]},
             {"name": "world", "path": "internal/world", "kind_free_text": "the real hc IP transport on loopback with scratch storage; panic capture", "serves_properties": ["C01","C02","C03","C04","C09","C10","C11","C13","C14","C20"]},
+            {"name": "sched", "path": "internal/sched", "kind_free_text": "cooperative scheduler + iterative preemption-bounding explorer; internal/c08 (writers/readers of a connection) and internal/psched (pairing handlers of several connections) are its harnesses, built into cmd/vsched with the overlay of cmd/mkoverlay", "serves_properties": ["C02","C03","C08"]},
             {"name": "fw", "path": "internal/fw", "kind_free_text": "sharded worker processes, merge, known-findings filter, evidence, replay", "serves_properties": props},
         ],
         "checks": checks,
